@@ -142,6 +142,12 @@ def run(ctx):
             kw = {"registry": jwe.JWERegistry(algorithms=E.ALL_NAMES)}
         form = rng.choice(["key", "key", "set", "callable"])
         sk, pk = K.key(kn, private=True), K.key(kn, private=K._SPECS[kn][0] == "oct" or transport == "jwe")
+        if i % 3 == 0:
+            # always present (every third case): a SINGLE key that carries a kid of its own (from its JWK, or because it once sat
+            # in a key set) - the header that comes back is the one given plus typ; a kid is recorded only for a pick from a SET
+            sk, pk = K.key(kn, private=True, kid="key-own-kid"), K.key(kn, private=K._SPECS[kn][0] == "oct" or transport == "jwe", kid="key-own-kid")
+            if form == "set":
+                form = "key"
         if form == "set":
             sk, pk = K.key(kn, private=True, kid="the-kid"), K.key(kn, private=True, kid="the-kid")
             header.pop("kid", None)
